@@ -754,6 +754,10 @@ func (vc *VC) enterLoop(li *loopInfo, pre *State) (*State, error) {
 		for c := range ms.cells {
 			if v, ok := head.cells[c]; ok {
 				vc.assumeType(head, v, c.Type().(*types.Pointer).Elem())
+				if c.Comment == "rangeindex" {
+					// the hidden index of a slice range starts at -1 and only grows by one under the "< len" guard
+					vc.assume(head, sx("and", sx(">=", v, "(- 1)"), sx("<=", v, "4611686018427387904")))
+				}
 			}
 		}
 	}
@@ -982,7 +986,11 @@ func (vc *VC) panicOb(st *State, kind, anchor, goal string) {
 	k := kind + "@" + anchor
 	vc.panicOrd[k]++
 	name := fmt.Sprintf("panic.%s@%s#%d", kind, anchor, vc.panicOrd[k])
-	vc.oblige(st, name, "panic."+kind, goal, "no "+kind+" panic at "+anchor, nil)
+	var props []string
+	if vc.spec != nil && hasProp(vc.spec.Props, "C13") {
+		props = []string{"C13"} // panic-freedom is C13's clause; it does not count towards the function's other properties
+	}
+	vc.oblige(st, name, "panic."+kind, goal, "no "+kind+" panic at "+anchor, props)
 }
 
 // ---------------------------------------------------------------- block execution
@@ -1130,6 +1138,11 @@ func (vc *VC) exec(st *State, ins ssa.Instruction) error {
 				t, err := env.compileBool(ss.Clause.E)
 				if err != nil {
 					return fmt.Errorf("%s: site fieldaddr %s: %v", vc.key, fname, err)
+				}
+				if ss.IsAssume {
+					vc.assume(st, t)
+					vc.assumedUse[fmt.Sprintf("assume at fieldaddr %s#%d in %s: %s", fname, vc.faOrd[x], vc.key, ss.Clause.Text)] = true
+					continue
 				}
 				name := fmt.Sprintf("site@fieldaddr(%s)#%d", fname, vc.faOrd[x])
 				if ss.Clause.Label != "" {
@@ -1708,6 +1721,17 @@ func (vc *VC) convert(st *State, x *ssa.Convert) {
 func (vc *VC) phi(st *State, x *ssa.Phi) {
 	// value chosen by the incoming edge; edges are identified by the reach of the predecessor's exit
 	b := x.Block()
+	if li := vc.loops[b]; li != nil {
+		// a phi at a loop head carries a value around the back edge: after the cut it is an arbitrary value of its
+		// type (constrained only by what the loop invariants say); a slice-range index is at least -1
+		t := vc.declare(x.Name()+"_loopphi", vc.sortOf(x.Type()))
+		vc.assumeType(st, t, x.Type())
+		if x.Comment == "rangeindex" {
+			vc.assume(st, sx(">=", t, "(- 1)"))
+		}
+		vc.vals[x] = t
+		return
+	}
 	var terms, conds []string
 	for i, p := range b.Preds {
 		er, ok := vc.edgeReach[[2]int{p.Index, b.Index}]
